@@ -838,7 +838,7 @@ func AdoptSession(p Persistence, c *Config) (client *Client, warn []error, fatal
 	// — MQTT Version 3.1.1, conformance statement MQTT-4.4.0-1
 	var publishAtLeastOnceKeys, publishExactlyOnceKeys, publishReleaseKeys []uint
 	for _, key := range keys {
-		if key == clientIDKey || key&remoteIDKeyFlag != 0 {
+		if key == clientIDKey {
 			continue
 		}
 		value, err := p.Load(key)
@@ -858,6 +858,9 @@ func AdoptSession(p Persistence, c *Config) (client *Client, warn []error, fatal
 			continue
 		}
 
+		if key&remoteIDKeyFlag != 0 {
+			continue // reception marker is valid
+		}
 		storeOrderPerKey[key] = storageSeqNo
 
 		switch packet[0] >> 4 {
